@@ -5,7 +5,6 @@ CONSTANTS
   Timeouts = {0, 2}
   AtomicEffect = TRUE
   MaxLocks = 4
-  GiveUp = FALSE
-INVARIANTS MutualExclusion HolderIsStored LockHasOwner
-PROPERTY TokenSafety
+  GiveUp = TRUE
+INVARIANTS LockHasOwner
 CHECK_DEADLOCK FALSE
